@@ -151,6 +151,19 @@ pub fn gzip(data: &[u8], layout: &GzLayout, rng: &mut Rng) -> Vec<u8> {
         GzLayout::Multi(n) => {
             let n = (*n).max(1);
             let mut cuts: Vec<usize> = (0..n - 1).map(|_| rng.usize(0, data.len())).collect();
+            // half of the member boundaries fall exactly after a line terminator (e.g. right after a header
+            // line, between a sequence line and the '+' line, between two records)
+            let newlines: Vec<usize> = data.iter().enumerate().filter(|(_, &b)| b == b'\n').map(|(i, _)| i + 1).collect();
+            if !newlines.is_empty() {
+                for (j, c) in cuts.iter_mut().enumerate() {
+                    if j % 2 == 0 {
+                        *c = *rng.pick(&newlines);
+                    }
+                }
+                if cuts.len() >= 2 {
+                    cuts[1] = newlines[0]; // right after the very first header line
+                }
+            }
             cuts.sort();
             let mut out = Vec::new();
             let mut prev = 0;
